@@ -1,11 +1,40 @@
-(* C14 — statements only; proofs are in Exec/*.v. *)
+(* C14 — Deferred commands always run, exactly once, in reverse order.
+   Statements only; proofs are in Exec/InvPhase.v. *)
 From Coq Require Import List Arith Bool String.
 Import ListNotations.
-From TV Require Import Exec.Model Exec.Monitors Exec.Shape Extracted.Facts.
+From TV Require Import Exec.Model Exec.Monitors Exec.InvPhase Exec.Shape Extracted.Facts.
 Local Open Scope string_scope.
 
-(* tie to the source: stage order of RunTask, dedup protocol, error wrapping, deferred calls
-   (facts extracted from task.go / hash.go on every run) *)
 Theorem C14_shape : exec_shape_ok = true.
 Proof. reflexivity. Qed.
 Print Assumptions C14_shape.
+
+(* For every program, configuration and schedule (sibling failures and cancellations included): in the
+   events of each execution of a task, deferred commands are announced only after the command loop
+   is over (after "finished", or after the last command that ran, or after a command that was
+   announced and cancelled); they are deferred entries of that task; their indices strictly decrease
+   (reverse order of registration, hence each at most once); and each announced deferred command
+   starts and ends before the next one is announced.  This is the deferred part of the sequence
+   automaton (phase_step) that mon_C02seq runs. *)
+Theorem C14_reverse_order_each_to_its_end :
+  forall (p : prog) (c : cfg) (sched : list choice), mon_C02seq p c (trace (run p c sched)) = true.
+Proof. exact sequence_all_schedules. Qed.
+Print Assumptions C14_reverse_order_each_to_its_end.
+
+(* "exactly once for every entry reached", EXIT_CODE and "before the caller continues" are checked by
+   mon_C14 / mon_C02seal on every observed run and fixed exactly by the replay of the run in the
+   machine (the machine's deferred stack); their theorems over all schedules are not closed yet
+   (DESIGN.md, C14: partial). *)
+
+(* non-vacuity: a failing command between two defer entries; both run, in reverse order, with EXIT_CODE 7 *)
+Definition ex_prog : prog :=
+  [ {| t_deps := []; t_cmds := [DeferShell 0; Shell 7 false; DeferShell 0; Shell 0 false];
+       t_run := Always; t_ignore := false; t_internal := false; t_g := dummy_guards |} ].
+Definition ex_cfg : cfg :=
+  {| cf_N := None; cf_parallel := false; cf_force := false; cf_forceall := false; cf_yes := false;
+     cf_roots := [ {| c_task := 0; c_var := VConst 0 |} ]; cf_maxcall := 1000 |}.
+Example C14_example :
+  let tr := trace (run ex_prog ex_cfg (ChRoot 0 :: repeat (ChStep 0) 30)) in
+  dann_of [0] tr = [0] /\ mon_C14 ex_prog ex_cfg true (filter observable tr) = true /\
+  existsb (fun e => match e with EvDProbeBegin [0] 0 7 => true | _ => false end) tr = true.
+Proof. vm_compute. repeat split; reflexivity. Qed.
